@@ -11,6 +11,8 @@ from .constants import BUILTIN_ORIGIN_TO_TYPEVARS
 
 class ImplicitParamsGetter:
     def _process_limit_element(self, type_var: TypeVar, tp: TypeHint) -> TypeHint:
+        if isinstance(tp, str):
+            tp = ForwardRef(tp)
         if isinstance(tp, ForwardRef):
             return eval_forward_ref(vars(sys.modules[type_var.__module__]), tp)
         return tp
